@@ -21,6 +21,8 @@ PM = P1 + ["correct_split_approach_retract", "smooth_height"]
 
 #: (steps, options, must_be_rejected)
 REQUESTS = {
+    # the empty pipeline: back to the recorded data
+    "V0": ([], {}, False),
     "V1": (P0, {}, False),
     "V2": (P1, {}, False),
     "V3": (P1, {"correct_tip_offset": {"method": "fit_constant_line"}},
